@@ -34,12 +34,16 @@ Clause "cursor moves first child / next sibling are consistent with the single o
   index of the entry below (+1 if that is a visible node) + number of visible nodes, counted by
   enumeration (`preCount`/`countDesc`), in the subtrees of the earlier raw siblings: the preorder
   position among the visible nodes of the cursor's root.
+* `cursor_prev_sibling_spec` (with `iterPrev_some`, `prevIter_ok`, `prevScan_spec`, `prev_internal_spec`)
+  — the backwards walk for the REPAIRED reverse iterator: under `CursorInv` the port of
+  `goto_previous_sibling` succeeds iff `earlierSiblings` ≠ [] and shows its LAST element
+  (`earlierSiblings` = what precedes the node in its raw parent, preceded by what precedes each
+  hidden ancestor).
 * supporting: `iterNext_some/none` (the forward iterator step in closed form), `firstGo_spec`,
   `scanSiblings_eq`, `enumKids_head`, `sibling_internal_spec`.
 
 Together with `child_spec` these give: a walk by goto_first_child / goto_next_sibling visits the
-children of a node in the order of `enumChildren`.  OPEN: goto_previous_sibling (mirror image of next sibling for the repaired iterator),
-goto_descendant (descent by descendant index),
+children of a node in the order of `enumChildren`.  OPEN: preservation of `CursorInv` by goto_previous_sibling, goto_descendant (descent by descendant index),
 parent_spec / next_sibling_spec / prev_sibling_spec for the position-based node.c searches
 (false on the unchanged code for zero-width nodes: would be `_partial`).
 -/
@@ -1416,6 +1420,395 @@ theorem descendant_index_spec (lang : Lang) (e p : Entry) (rest : List Entry) (p
     simp only [kids_mk, data_mk]
     rw [descBefore_eq_preCount lang pd.productionId (pk.take e.childIndex) 0 (some pd.symbol)
       (summarizedL_take lang pk _ hs.2.2) (shapeOKL_take pk _ _ hsh.2)]
+
+end TsVerif.C06
+
+namespace TsVerif.C06
+
+def prevIndex (it : Iter) : Nat := if it.childIndex == 0 then u32max else it.childIndex - 1
+
+/-- The child entered when stepping back (none when stepping back from the first child). -/
+def prevOf (it : Iter) : Option Tree :=
+  if prevIndex it < it.parent.kids.length then it.parent.kids[prevIndex it]? else none
+
+/-- The iterator after the repaired `iterPrev` stepped back over child `c` (at `it.childIndex`). -/
+def prevIter (lang : Lang) (it : Iter) (c : Tree) : Iter :=
+  match prevOf it with
+  | some prev =>
+    { it with pos := length_backtrack (length_backtrack it.pos c.data.padding) prev.data.size
+              childIndex := prevIndex it
+              si := if prev.data.extra then it.si else it.si - 1
+              descIdx := it.descIdx - (vdc prev + (if (prev.data.visible || (!prev.data.extra &&
+                lang.aliasAt it.parent.data.productionId (if prev.data.extra then it.si else it.si - 1) != 0)) then 1 else 0)) }
+  | none => { it with pos := length_backtrack it.pos c.data.padding, childIndex := prevIndex it }
+
+theorem iterPrev_some (lang : Lang) (it : Iter) (c : Tree) (hv : it.valid = true)
+    (hc : it.parent.kids[it.childIndex]? = some c) (hn : it.parent.kids.length ≤ u32max) :
+    iterPrev lang Quirks.none it = some (entryOf it c, visOf lang it c, prevIter lang it c) := by
+  have hlt := lt_of_getElem?_some _ _ _ hc
+  have hne : (it.childIndex == u32max) = false := by
+    simp only [beq_eq_false_iff_ne, ne_eq]; omega
+  unfold iterPrev prevIter prevOf prevIndex entryOf visOf
+  simp only [Quirks.none, hv, hne, hc, Bool.not_true, Bool.or_self, Bool.false_eq_true, if_false]
+  cases hp : (if (if it.childIndex == 0 then u32max else it.childIndex - 1) < it.parent.kids.length
+      then it.parent.kids[(if it.childIndex == 0 then u32max else it.childIndex - 1)]? else none) <;> simp [hv]
+
+theorem prevIter_parent (lang : Lang) (it : Iter) (c : Tree) : (prevIter lang it c).parent = it.parent := by
+  unfold prevIter; cases prevOf it <;> rfl
+theorem prevIter_valid (lang : Lang) (it : Iter) (c : Tree) : (prevIter lang it c).valid = it.valid := by
+  unfold prevIter; cases prevOf it <;> rfl
+theorem prevIter_childIndex (lang : Lang) (it : Iter) (c : Tree) : (prevIter lang it c).childIndex = prevIndex it := by
+  unfold prevIter; cases prevOf it <;> rfl
+
+theorem iterPrev_none (lang : Lang) (it : Iter) (h : it.childIndex = u32max) : iterPrev lang Quirks.none it = none := by
+  unfold iterPrev
+  simp [Quirks.none, h]
+
+/-- Stepping back keeps the iterator invariant (structural and descendant index of the child
+entered), as long as there is a child to enter. -/
+theorem prevIter_ok (lang : Lang) (base : Nat) (it : Iter) (c : Tree) (h : IterOK lang base it)
+    (hpos : it.childIndex > 0) (hlt : it.childIndex < it.parent.kids.length) (hn : it.parent.kids.length ≤ u32max) :
+    IterOK lang base (prevIter lang it c) := by
+  obtain ⟨hv, hsi, hd⟩ := h
+  have hpi : prevIndex it = it.childIndex - 1 := by
+    unfold prevIndex
+    have : (it.childIndex == 0) = false := by simp only [beq_eq_false_iff_ne, ne_eq]; omega
+    simp [this]
+  have hlt' : it.childIndex - 1 < it.parent.kids.length := by omega
+  have hget : it.parent.kids[it.childIndex - 1]? = some (it.parent.kids[it.childIndex - 1]) := by simp [hlt']
+  have hpo : prevOf it = some (it.parent.kids[it.childIndex - 1]) := by
+    unfold prevOf; rw [hpi]; simp [hlt']
+  have htake : it.parent.kids.take it.childIndex = it.parent.kids.take (it.childIndex - 1) ++ [it.parent.kids[it.childIndex - 1]] := by
+    have := take_succ_of_getElem? it.parent.kids (it.childIndex - 1) _ hget
+    have e : it.childIndex - 1 + 1 = it.childIndex := by omega
+    rwa [e] at this
+  unfold prevIter
+  rw [hpo]
+  refine ⟨hv, ?_, ?_⟩
+  · simp only [hpi]
+    rw [htake, siAfter_append] at hsi
+    simp only [siAfter] at hsi
+    by_cases hx : (it.parent.kids[it.childIndex - 1]).data.extra = true
+    · simp only [hx, if_true] at hsi ⊢; exact hsi
+    · simp only [hx, Bool.false_eq_true, if_false] at hsi ⊢; omega
+  · simp only [hpi]
+    rw [htake, siAfter_append] at hsi
+    rw [htake, descBefore_append] at hd
+    simp only [descBefore, siAfter] at hd hsi
+    by_cases hx : (it.parent.kids[it.childIndex - 1]).data.extra = true
+    · simp only [hx, if_true, Bool.not_true, Bool.false_and, Bool.or_false] at hd hsi ⊢
+      omega
+    · simp only [hx, Bool.false_eq_true, if_false, Bool.not_false, Bool.true_and] at hd hsi ⊢
+      have hs1 : it.si - 1 = siAfter (it.parent.kids.take (it.childIndex - 1)) 0 := by omega
+      rw [hs1]
+      omega
+
+
+theorem lastRel_snoc (lang : Lang) (pid : Nat) (c : Tree) : ∀ (a : List Tree) (si : Nat),
+    lastRel lang pid (a ++ [c]) si =
+      (if c.data.visible || (!c.data.extra && lang.aliasAt pid (siAfter a si) != 0) then some (c, siAfter a si, true)
+       else if vcc c > 0 then some (c, siAfter a si, false)
+       else lastRel lang pid a si)
+  | [], si => by
+    simp only [List.nil_append, lastRel, siAfter]
+    rfl
+  | x :: a, si => by
+    simp only [List.cons_append, lastRel, siAfter]
+    rw [lastRel_snoc lang pid c a]
+    by_cases h1 : (c.data.visible || (!c.data.extra && lang.aliasAt pid (siAfter a (if x.data.extra then si else si + 1)) != 0)) = true
+    · simp [h1]
+    · simp only [h1, Bool.false_eq_true, if_false]
+      by_cases h2 : vcc c > 0
+      · simp [h2]
+      · simp only [h2, if_false]
+
+/-- The backward scan of the repaired iterator from child `i` finds the LAST stop among the
+children `0..i`. -/
+theorem prevScan_spec (lang : Lang) (base : Nat) : ∀ (i fuel : Nat) (it : Iter), IterOK lang base it →
+    it.childIndex = i → i < it.parent.kids.length → it.parent.kids.length ≤ u32max → i + 1 < fuel →
+    bestOf (scanSiblings (iterPrev lang Quirks.none) fuel it) =
+      lastRel lang it.parent.data.productionId (it.parent.kids.take (i + 1)) 0
+  | i, 0, _, _, _, _, _, hf => by omega
+  | i, fuel + 1, it, hok, hi, hlt, hn, hf => by
+    have hget : it.parent.kids[it.childIndex]? = some (it.parent.kids[i]) := by
+      rw [hi]; simp [hlt]
+    unfold scanSiblings
+    rw [iterPrev_some lang it _ hok.1 hget hn]
+    have htake : it.parent.kids.take (i + 1) = it.parent.kids.take i ++ [it.parent.kids[i]] :=
+      take_succ_of_getElem? _ _ _ (by simp [hlt])
+    rw [htake, lastRel_snoc]
+    have hsi : siAfter (it.parent.kids.take i) 0 = it.si := by rw [← hi]; exact hok.2.1.symm
+    rw [hsi]
+    simp only [visOf]
+    by_cases hvis : ((it.parent.kids[i]).data.visible || (!(it.parent.kids[i]).data.extra && lang.aliasAt it.parent.data.productionId it.si != 0)) = true
+    · simp [hvis, bestOf, entryOf]
+    · simp only [hvis, Bool.false_eq_true, if_false, entryOf]
+      by_cases hk : vcc (it.parent.kids[i]) > 0
+      · simp [hk, bestOf]
+      · simp only [hk, if_false]
+        cases i with
+        | zero =>
+          have hci : (prevIter lang it (it.parent.kids[0])).childIndex = u32max := by
+            rw [prevIter_childIndex]; unfold prevIndex; simp [hi]
+          cases fuel with
+          | zero => omega
+          | succ f =>
+            unfold scanSiblings
+            rw [iterPrev_none lang _ hci]
+            simp [bestOf, lastRel]
+        | succ j =>
+          have hpos : it.childIndex > 0 := by omega
+          have hok' := prevIter_ok lang base it (it.parent.kids[j + 1]) hok hpos (by omega) hn
+          have hci : (prevIter lang it (it.parent.kids[j + 1])).childIndex = j := by
+            rw [prevIter_childIndex]; unfold prevIndex
+            have : (it.childIndex == 0) = false := by simp only [beq_eq_false_iff_ne, ne_eq]; omega
+            simp [this, hi]
+          have ih := prevScan_spec lang base j fuel (prevIter lang it (it.parent.kids[j + 1])) hok' hci
+            (by rw [prevIter_parent]; omega) (by rw [prevIter_parent]; exact hn) (by omega)
+          rw [prevIter_parent] at ih
+          exact ih
+
+
+/-- Visible nodes that precede entry `e` among the raw children of its parent entry `p`. -/
+def earlierInParent (lang : Lang) (e p : Entry) : List (Tree × Nat) :=
+  enumKids lang p.t.data.productionId (p.t.kids.take e.childIndex) 0
+
+/-- The siblings that precede the cursor's node in the ordered tree (in document order). -/
+def earlierSiblings (lang : Lang) : Bool → List Entry → List (Tree × Nat)
+  | first, e :: p :: rest =>
+    if !first && visEntry lang e p then []
+    else earlierSiblings lang false (p :: rest) ++ earlierInParent lang e p
+  | _, _ => []
+
+theorem scanPrev_none (lang : Lang) (fuel : Nat) (it : Iter) (h : it.childIndex = u32max) :
+    scanSiblings (iterPrev lang Quirks.none) fuel it = (Step.none, none) := by
+  cases fuel with
+  | zero => rfl
+  | succ f => unfold scanSiblings; rw [iterPrev_none lang it h]
+
+theorem getLast?_append_nil_right {α : Type} (a b : List α) (h : b = []) : (a ++ b).getLast? = a.getLast? := by
+  subst h; simp
+
+theorem prev_internal_spec (lang : Lang) (initialSize : Nat) : ∀ (stack : List Entry) (first : Bool),
+    StackOK lang stack → CursorInv lang stack → (∀ e ∈ stack, e.t.kids.length ≤ u32max) →
+    (first = true → stack.length = initialSize) → (first = false → stack.length < initialSize) →
+    ((gotoSiblingInternal lang (iterPrev lang Quirks.none) initialSize stack).1 = Step.visible →
+        topNode lang (gotoSiblingInternal lang (iterPrev lang Quirks.none) initialSize stack).2 =
+          (earlierSiblings lang first stack).getLast?) ∧
+    ((gotoSiblingInternal lang (iterPrev lang Quirks.none) initialSize stack).1 = Step.hidden →
+        ∃ e st', (gotoSiblingInternal lang (iterPrev lang Quirks.none) initialSize stack).2 = e :: st' ∧ vcc e.t > 0 ∧
+          Summarized lang e.t ∧ (∃ ps, shapeOK ps e.t = true) ∧
+          (enumChildren lang e.t).getLast? = (earlierSiblings lang first stack).getLast?) ∧
+    ((gotoSiblingInternal lang (iterPrev lang Quirks.none) initialSize stack).1 = Step.none →
+        earlierSiblings lang first stack = [])
+  | [], first, _, _, _, _, _ => by simp [gotoSiblingInternal, earlierSiblings]
+  | [e], first, _, _, _, _, _ => by simp [gotoSiblingInternal, earlierSiblings]
+  | entry :: parent :: rest, first, hok, hinv, hsmall, hf1, hf2 => by
+    unfold StackOK at hok
+    obtain ⟨_, _, _, hokp⟩ := hok
+    have hokp' := hokp
+    unfold StackOK at hokp'
+    obtain ⟨hsp, ⟨psp, hshp⟩, _, _⟩ := hokp'
+    obtain ⟨⟨hchild, hsi, hd⟩, hinvp⟩ := hinv
+    have hnp : parent.t.kids.length ≤ u32max := hsmall parent (by simp)
+    have hkne : parent.t.kids.isEmpty = false := by
+      cases hk : parent.t.kids with
+      | nil => rw [hk] at hchild; simp at hchild
+      | cons a b => rfl
+    have hit0 := iterateChildren_ok lang parent rest.head? hkne
+    have hpar := iterateChildren_parent lang parent rest.head?
+    have hit : IterOK lang (parent.descIdx + (if isEntryVisible lang parent rest.head? then 1 else 0))
+        { valid := (iterateChildren lang parent rest.head?).valid, parent := (iterateChildren lang parent rest.head?).parent, pos := entry.pos, childIndex := entry.childIndex, si := entry.si, descIdx := entry.descIdx } := by
+      refine ⟨hit0.1, ?_, ?_⟩
+      · simp only [hpar]; exact hsi
+      · simp only [hpar]; exact hd
+    have hc' : ({ valid := (iterateChildren lang parent rest.head?).valid, parent := (iterateChildren lang parent rest.head?).parent, pos := entry.pos, childIndex := entry.childIndex, si := entry.si, descIdx := entry.descIdx } : Iter).parent.kids[({ valid := (iterateChildren lang parent rest.head?).valid, parent := (iterateChildren lang parent rest.head?).parent, pos := entry.pos, childIndex := entry.childIndex, si := entry.si, descIdx := entry.descIdx } : Iter).childIndex]? = some entry.t := by
+      simp only [hpar]; exact hchild
+    have hpar' : ({ valid := (iterateChildren lang parent rest.head?).valid, parent := (iterateChildren lang parent rest.head?).parent, pos := entry.pos, childIndex := entry.childIndex, si := entry.si, descIdx := entry.descIdx } : Iter).parent = parent.t := hpar
+    have hci' : ({ valid := (iterateChildren lang parent rest.head?).valid, parent := (iterateChildren lang parent rest.head?).parent, pos := entry.pos, childIndex := entry.childIndex, si := entry.si, descIdx := entry.descIdx } : Iter).childIndex = entry.childIndex := rfl
+    have hsi' : ({ valid := (iterateChildren lang parent rest.head?).valid, parent := (iterateChildren lang parent rest.head?).parent, pos := entry.pos, childIndex := entry.childIndex, si := entry.si, descIdx := entry.descIdx } : Iter).si = entry.si := rfl
+    unfold gotoSiblingInternal
+    dsimp only
+    generalize ({ valid := (iterateChildren lang parent rest.head?).valid, parent := (iterateChildren lang parent rest.head?).parent, pos := entry.pos, childIndex := entry.childIndex, si := entry.si, descIdx := entry.descIdx } : Iter) = itx at hit hc' hpar' hci' hsi' ⊢
+    rw [iterPrev_some lang itx entry.t hit.1 hc' (by rw [hpar']; exact hnp)]
+    dsimp only
+    rw [visOf_eq lang itx entry parent hpar' hsi']
+    have hrec := prev_internal_spec lang initialSize (parent :: rest) false hokp hinvp
+      (fun e he => hsmall e (List.mem_cons_of_mem _ he)) (fun h => by simp at h)
+      (fun _ => by
+        cases first with
+        | true => have := hf1 rfl; simp only [List.length_cons] at this ⊢; omega
+        | false => have := hf2 rfl; simp only [List.length_cons] at this ⊢; omega)
+    by_cases hbreak : (visEntry lang entry parent && decide ((parent :: rest).length + 1 < initialSize)) = true
+    · rw [if_pos hbreak]
+      simp only [Bool.and_eq_true, decide_eq_true_eq, List.length_cons] at hbreak
+      have hfirst : first = false := by
+        cases first with
+        | false => rfl
+        | true => have := hf1 rfl; simp only [List.length_cons] at this; omega
+      refine ⟨fun h => by simp at h, fun h => by simp at h, fun _ => ?_⟩
+      simp [earlierSiblings, hfirst, hbreak.1]
+    · rw [if_neg hbreak]
+      have hnotstop : (!first && visEntry lang entry parent) = false := by
+        cases first with
+        | true => rfl
+        | false =>
+          have hl := hf2 rfl
+          simp only [List.length_cons] at hl
+          have hdd : decide ((parent :: rest).length + 1 < initialSize) = true := by simpa using hl
+          simp only [hdd, Bool.and_true] at hbreak
+          simpa using hbreak
+      have hearlier : earlierSiblings lang first (entry :: parent :: rest) =
+          earlierSiblings lang false (parent :: rest) ++ enumKids lang parent.t.data.productionId (parent.t.kids.take entry.childIndex) 0 := by
+        simp [earlierSiblings, hnotstop, earlierInParent]
+      rw [hearlier]
+      have hlastE := enumKids_last lang (parent.t.kids.take entry.childIndex) parent.t.data.productionId 0 psp
+      -- summaries of the earlier children
+      have hsumm : SummarizedL lang parent.t.kids ∧ shapeOKL (some parent.t.data.symbol) parent.t.kids = true := by
+        cases hpt : parent.t with
+        | mk pd pk =>
+          rw [hpt] at hsp hshp
+          unfold Summarized at hsp
+          unfold shapeOK at hshp
+          simp only [Bool.and_eq_true] at hshp
+          exact ⟨hsp.2.2, hshp.2⟩
+      have hlast := enumKids_last lang (parent.t.kids.take entry.childIndex) parent.t.data.productionId 0
+        (some parent.t.data.symbol) (summarizedL_take lang _ _ hsumm.1) (shapeOKL_take _ _ _ hsumm.2)
+      -- the backward scan
+      have hscan : bestOf (scanSiblings (iterPrev lang Quirks.none) (parent.t.kids.length + 2) (prevIter lang itx entry.t)) =
+          lastRel lang parent.t.data.productionId (parent.t.kids.take entry.childIndex) 0 := by
+        by_cases hz : entry.childIndex = 0
+        · have hcu : (prevIter lang itx entry.t).childIndex = u32max := by
+            rw [prevIter_childIndex]; unfold prevIndex; simp [hci', hz]
+          rw [scanPrev_none lang _ _ hcu, hz]
+          simp [bestOf, lastRel]
+        · have hlt := lt_of_getElem?_some _ _ _ hchild
+          have hok1 := prevIter_ok lang _ itx entry.t hit (by omega) (by rw [hpar', hci']; exact hlt) (by rw [hpar']; exact hnp)
+          have hcj : (prevIter lang itx entry.t).childIndex = entry.childIndex - 1 := by
+            rw [prevIter_childIndex]; unfold prevIndex
+            have : (entry.childIndex == 0) = false := by simp only [beq_eq_false_iff_ne, ne_eq]; omega
+            simp [hci', this]
+          have := prevScan_spec lang _ (entry.childIndex - 1) (parent.t.kids.length + 2) (prevIter lang itx entry.t) hok1 hcj
+            (by rw [prevIter_parent, hpar']; omega) (by rw [prevIter_parent, hpar']; exact hnp) (by omega)
+          rw [prevIter_parent, hpar'] at this
+          have e1 : entry.childIndex - 1 + 1 = entry.childIndex := by omega
+          rwa [e1] at this
+      generalize scanSiblings (iterPrev lang Quirks.none) (parent.t.kids.length + 2) (prevIter lang itx entry.t) = r at hscan ⊢
+      obtain ⟨step, eo⟩ := r
+      cases hfr : lastRel lang parent.t.data.productionId (parent.t.kids.take entry.childIndex) 0 with
+      | none =>
+        rw [hfr] at hscan hlast
+        simp only at hlast
+        have hnil := List.getLast?_eq_none_iff.mp hlast
+        rw [getLast?_append_nil_right _ _ hnil, hnil, List.append_nil]
+        cases step <;> cases eo <;> simp only [bestOf] at hscan <;> first
+          | exact hrec
+          | (exact absurd hscan (by simp))
+      | some trip =>
+        obtain ⟨c, si', b⟩ := trip
+        rw [hfr] at hscan hlast
+        obtain ⟨e, heo, h1, h2, hstep⟩ := bestOf_some step eo c si' b hscan
+        subst heo
+        have hmem : c ∈ parent.t.kids := List.mem_of_mem_take (lastRel_mem lang _ _ _ c si' b hfr)
+        cases b with
+        | true =>
+          simp only [if_true] at hstep
+          subst hstep
+          simp only at hlast ⊢
+          refine ⟨fun _ => ?_, fun h => by simp at h, fun h => by simp at h⟩
+          simp only [topNode]
+          rw [getLast?_append_of_some _ _ _ hlast, h1, h2]
+        | false =>
+          simp only [Bool.false_eq_true, if_false] at hstep
+          subst hstep
+          simp only at hlast ⊢
+          refine ⟨fun h => by simp at h, fun _ => ?_, fun h => by simp at h⟩
+          have hvc := lastRel_false_vcc lang _ _ _ c si' hfr
+          have hsc := summarized_of_mem lang _ c hsumm.1 hmem
+          have hshc := shapeOK_of_mem _ _ c hsumm.2 hmem
+          refine ⟨e, _, rfl, by rw [h1]; exact hvc, by rw [h1]; exact hsc, ⟨_, by rw [h1]; exact hshc⟩, ?_⟩
+          rw [h1]
+          have hcnt := (summarize_counts lang c _ hsc hshc).1
+          cases hl : (enumChildren lang c).getLast? with
+          | none =>
+            have : enumChildren lang c = [] := List.getLast?_eq_none_iff.mp hl
+            rw [this] at hcnt
+            unfold vcc at hvc
+            split at hvc
+            · omega
+            · simp at hcnt; omega
+          | some x =>
+            rw [hl] at hlast
+            rw [getLast?_append_of_some _ _ _ hlast]
+
+
+theorem topNode_pos_irrelevant (lang : Lang) (top parent : Entry) (rest : List Entry) (p : Length) :
+    topNode lang ({ top with pos := p } :: parent :: rest) = topNode lang (top :: parent :: rest) := rfl
+
+/-- `cursor_prev_sibling_spec`: for the REPAIRED reverse iterator (`Quirks.none`,
+fixes/C06-cursor-prev-iterator.diff, committed), on every cursor stack that satisfies the invariant
+`CursorInv` over summarized parser-shaped subtrees (and fewer than 2³² children per node), the port
+of `ts_tree_cursor_goto_previous_sibling` succeeds exactly when an earlier sibling exists in the
+ordered tree and then shows the LAST of the earlier siblings. -/
+theorem cursor_prev_sibling_spec (lang : Lang) (c : Cursor) (hok : StackOK lang c.stack) (hinv : CursorInv lang c.stack)
+    (hsmall : ∀ e ∈ c.stack, e.t.kids.length ≤ u32max) :
+    ((gotoPreviousSibling lang Quirks.none c).1 = true →
+        topNode lang (gotoPreviousSibling lang Quirks.none c).2.stack = (earlierSiblings lang true c.stack).getLast?) ∧
+    ((gotoPreviousSibling lang Quirks.none c).1 = false → earlierSiblings lang true c.stack = []) := by
+  have h := prev_internal_spec lang c.stack.length c.stack true hok hinv hsmall (fun _ => rfl) (fun h => by simp at h)
+  unfold gotoPreviousSibling
+  generalize hr : gotoSiblingInternal lang (iterPrev lang Quirks.none) c.stack.length c.stack = r at h
+  obtain ⟨step, st⟩ := r
+  simp only at h
+  cases step with
+  | none =>
+    simp only
+    exact ⟨fun hf => by simp at hf, fun _ => h.2.2 rfl⟩
+  | visible =>
+    simp only
+    refine ⟨fun _ => ?_, fun hf => by simp at hf⟩
+    have h1 := h.1 rfl
+    -- the position repair does not change the node shown
+    cases st with
+    | nil => simpa using h1
+    | cons top r1 =>
+      cases r1 with
+      | nil => simpa using h1
+      | cons parent rest =>
+        simp only [show (Step.visible == Step.hidden) = false from rfl, Bool.false_eq_true, if_false]
+        split <;> exact h1
+  | hidden =>
+    simp only
+    obtain ⟨e, st', hst, hv, hs, ⟨ps, hsh⟩, hlast⟩ := h.2.1 rfl
+    subst hst
+    refine ⟨fun _ => ?_, fun hf => by simp at hf⟩
+    simp only [show (Step.hidden == Step.hidden) = true from rfl, if_true]
+    -- after the position repair the top entry has the same subtree; descend to its last child
+    have key : ∀ (e' : Entry), e'.t = e.t → e'.si = e.si →
+        topNode lang (gotoChild lang true (topSize (e' :: st')) (e' :: st')).2 = (earlierSiblings lang true c.stack).getLast? := by
+      intro e' ht hsi
+      have hfc := cursor_last_child_spec lang (topSize (e' :: st')) e' st' ps (by rw [ht]; exact hs) (by rw [ht]; exact hsh) (by simp [topSize])
+      have hne : enumChildren lang e'.t ≠ [] := by
+        rw [ht]
+        intro h0
+        have hcnt := (summarize_counts lang e.t ps hs hsh).1
+        rw [h0] at hcnt
+        unfold vcc at hv
+        split at hv
+        · omega
+        · simp at hcnt; omega
+      have hok1 : (gotoChild lang true (topSize (e' :: st')) (e' :: st')).1 = true := by
+        cases hb : (gotoChild lang true (topSize (e' :: st')) (e' :: st')).1 with
+        | true => rfl
+        | false => exact absurd (hfc.2 hb) hne
+      rw [hfc.1 hok1, ht, hlast]
+    cases st' with
+    | nil => exact key e rfl rfl
+    | cons parent rest =>
+      simp only
+      split
+      · exact key _ rfl rfl
+      · exact key e rfl rfl
 
 end TsVerif.C06
 
